@@ -130,6 +130,26 @@ func registerGhostBuiltins() {
 		v := e.eval(n.Args[0])
 		return boolVal(eq(v.tag(), e.x.denseTag()))
 	}
+	specBuiltins["telem"] = func(e *SpecEnv, n ECall) Val {
+		// telem(t, "float32", k): k-th element of the tensor's backing store viewed as []float32
+		v := e.eval(n.Args[0])
+		ts, ok := n.Args[1].(EStr)
+		if !ok {
+			e.fail("telem needs an element type name")
+		}
+		et := e.x.prog.typeByName(ts.V)
+		if et == nil {
+			e.fail("telem: unknown type %q", ts.V)
+		}
+		k := e.eval(n.Args[2])
+		t := tensorRef(v)
+		a := Addr{Prefix: "E$" + typeKey(et), Ref: e.x.tBuf(e.st, t), Idx: add(e.x.tBoff(e.st, t), k.C[0]), T: et}
+		return e.x.load(e.st, a)
+	}
+	specBuiltins["zeroed"] = func(e *SpecEnv, n ECall) Val {
+		v := e.eval(n.Args[0])
+		return boolVal(eq(e.x.ghostGet(e.st, "t$zeroed", tensorRef(v)), "1"))
+	}
 	rd := func(field string) specBuiltin {
 		return func(e *SpecEnv, n ECall) Val {
 			v := e.eval(n.Args[0])
@@ -199,10 +219,14 @@ func init() {
 
 // sliceElemTags: tag -> element type for slice types that may back a tensor.
 func (x *Exec) backingTypes() []types.Type {
+	// only slice types that have been boxed into an interface in this function can be the
+	// dynamic type of a backing value created here; any other tag fails the "is a slice" check.
 	var out []types.Type
 	for _, k := range []types.BasicKind{types.Bool, types.Int, types.Int8, types.Int16, types.Int32, types.Int64, types.Uint, types.Uint8,
 		types.Uint16, types.Uint32, types.Uint64, types.Float32, types.Float64, types.Complex64, types.Complex128, types.String} {
-		out = append(out, types.Typ[k])
+		if _, ok := x.typeTags[typeKey(types.NewSlice(types.Typ[k]))]; ok {
+			out = append(out, types.Typ[k])
+		}
 	}
 	return out
 }
@@ -267,15 +291,15 @@ func (x *Exec) tensorNew(fr *Frame, i *ssa.Call, opts Val) Val {
 	}
 	bLen = x.define("new_blen", SInt, bLen)
 	total := x.define("new_total", SInt, sx("prod", sel(intH, dBase), dOff, dLen))
-	dimsNonNeg := fmt.Sprintf("(forall ((i Int)) (=> (and (<= 0 i) (< i %s)) (>= (select (select %s %s) (+ %s i)) 0)))", dLen, intH, dBase, dOff)
-	x.oblige(fr, "nopanic", "tensor.New-backing-not-slice", x.contractTags(fr), implies(and(hasBack, not(eq(bTag, "0"))), or(isSliceTag...)), pc,
-		"tensor.New panics: WithBacking argument is not a slice", "")
-	x.oblige(fr, "nopanic", "tensor.New-negative-dim", x.contractTags(fr), dimsNonNeg, pc,
-		"tensor.New panics: negative dimension", "")
+	dimsPos := fmt.Sprintf("(forall ((i Int)) (=> (and (<= 0 i) (< i %s)) (>= (select (select %s %s) (+ %s i)) 1)))", dLen, intH, dBase, dOff)
+	nilSlice := x.define("new_nilbacking", SBool, eq(bBase, "0"))
+	x.oblige(fr, "nopanic", "tensor.New-backing-not-slice", x.contractTags(fr), and(hasBack, not(eq(bTag, "0")), or(isSliceTag...)), pc,
+		"tensor.New panics: WithBacking argument is nil or not a slice", "")
+	x.oblige(fr, "nopanic", "tensor.New-dim-not-positive", x.contractTags(fr), dimsPos, pc,
+		"tensor.New panics: a dimension is negative or zero (gorgonia cannot build zero-size tensors)", "")
 	x.oblige(fr, "nopanic", "tensor.New-count", x.contractTags(fr),
-		implies(and(hasBack, sx(">", bLen, "0"), sx(">", dLen, "0")), eq(bLen, total)), pc,
+		or(nilSlice, ite(sx(">", dLen, "0"), eq(bLen, total), sx(">=", bLen, "1"))), pc,
 		"tensor.New panics: len(backing) != product of dims", "")
-
 	// result
 	t := x.newTensor(st, "tensor")
 	shp := x.newIntArray(st, "shape")
@@ -287,7 +311,7 @@ func (x *Exec) tensorNew(fr *Frame, i *ssa.Call, opts Val) Val {
 	x.ghostSet(st, "t$rank", t, dLen)
 	x.ghostSet(st, "t$shp", t, shp)
 	x.ghostSet(st, "t$dtype", t, x.define("new_dtype", SInt, ite(and(hasBack, not(eq(bTag, "0"))), dcode, "12")))
-	usesBacking := and(hasBack, sx(">", bLen, "0"))
+	usesBacking := not(nilSlice)
 	freshBuf := x.newRef(st, "zerobuf")
 	x.ghostSet(st, "t$buf", t, ite(usesBacking, bBase, freshBuf))
 	x.ghostSet(st, "t$boff", t, ite(usesBacking, bOff, "0"))
